@@ -147,3 +147,93 @@ func c20Gate(c *Ctx) {
 		}
 	}
 }
+
+// RECHECK: the refusal path writes its busy report *after* its compare-and-swap
+// failed; the request that held the flag may have finished in between, and the
+// finisher's erase of the busy report has then already run.  After writing the
+// report the refusal path therefore loads the flag again and erases the report
+// on the edge where the flag is clear (write-then-recheck).
+func c20Recheck(c *Ctx) {
+	const rule = "REFUSAL"
+	f := c.fn(rule, "cmd", "tryQueueReloadRequest")
+	if f == nil {
+		return
+	}
+	info := f.Info()
+	g := f.Graph()
+	var flag types.Object
+	ast.Inspect(f.Body, func(m ast.Node) bool {
+		if call, ok := m.(*ast.CallExpr); ok {
+			if recv, name, ok := methodCall(call); ok && name == "CompareAndSwap" {
+				if id, ok := ast.Unparen(recv).(*ast.Ident); ok {
+					flag = info.ObjectOf(id)
+				}
+			}
+		}
+		return true
+	})
+	if flag == nil {
+		c.R.Unresolved(rule, "tryQueueReloadRequest: compare-and-swapped flag")
+		return
+	}
+	busy := nodeCalls(info, "cmd.restoreRejectedReloadProgress")
+	loadsFlag := func(e ast.Node) bool {
+		hit := false
+		ast.Inspect(e, func(m ast.Node) bool {
+			if call, ok := m.(*ast.CallExpr); ok {
+				if recv, name, ok := methodCall(call); ok && name == "Load" {
+					if id, ok := ast.Unparen(recv).(*ast.Ident); ok && info.ObjectOf(id) == flag {
+						hit = true
+					}
+				}
+			}
+			return true
+		})
+		return hit
+	}
+	// refusal edge: the true edge of the condition that holds the failed CAS
+	var refusal *cfg.Block
+	for _, cs := range g.Conds(func(e ast.Expr) bool { return strings.Contains(core.ExprStr(e), "CompareAndSwap(false, true)") }) {
+		refusal = cs.True
+	}
+	if refusal == nil {
+		c.R.Unresolved(rule, "tryQueueReloadRequest: refusal edge of the admission CAS")
+		return
+	}
+	var busyPt *core.Point
+	w := &core.Walker{G: g, Visit: func(n ast.Node) core.Verdict {
+		if busy(n) {
+			return core.Hit
+		}
+		return core.Go
+	}, OnHit: func(n ast.Node, _ []token.Pos) {
+		if busyPt == nil {
+			p := pointOf(g, n)
+			busyPt = &p
+		}
+	}}
+	w.Run(core.Point{B: refusal, I: 0})
+	if busyPt == nil {
+		c.R.Checkf(rule, "busy-report-written-on-refusal", c.pos(f.Pos()), false, "the refusal edge does not write a busy report")
+		return
+	}
+	ex := g.ExitsAvoiding(busyPt.After(), func(n ast.Node) bool { return loadsFlag(n) })
+	okRecheck := len(ex) == 0
+	okErase := false
+	if okRecheck {
+		erase := nodeCalls(info, "cmd.clearRejectedReloadProgress")
+		for _, cs := range g.Conds(func(e ast.Expr) bool { return loadsFlag(e) }) {
+			// the edge on which the flag is clear
+			clear := cs.False
+			if u, ok := ast.Unparen(cs.Cond).(*ast.UnaryExpr); ok && u.Op == token.NOT {
+				clear = cs.True
+			}
+			if len(g.ExitsAvoiding(core.Point{B: clear, I: 0}, erase)) == 0 {
+				okErase = true
+			}
+		}
+	}
+	pos := c.pos(busyPt.Node().Pos())
+	c.R.Checkf(rule, "busy-report-rechecked-against-the-flag@tryQueueReloadRequest", pos, okRecheck && okErase,
+		"after the refused request wrote its busy report every path loads the admission flag again and erases the report when the flag is clear (re-check present: %v, erase on the clear edge: %v) — otherwise a reload that finishes between the failed CAS and the report leaves 'busy' in the progress file for ever and `dae reload` refuses to signal", okRecheck, okErase)
+}
